@@ -123,7 +123,7 @@ def registry():
             assumptions=["sampling of policy states, not the exhaustive exploration the property text suggests"],
             state_measure=mem_state + "; policy walk: distinct (policy, ways, get_repr()) values",
             time_unit="operations issued",
-            required_probes=["fill displacing a valid block", "policy touch on hit", "plru tree of depth >= 2 exercised"],
+            required_probes=["fill displacing a valid block", "policy touch on read hit", "policy touch on write hit", "plru tree of depth >= 2 exercised"],
         )
     )
     add(
